@@ -474,3 +474,22 @@ func libPrefixStreams() []Stream {
 	})
 	return libPrefixList
 }
+
+// walkStreams: three streams (raw LZMA2, .xz, .lzma with size and end marker) built from fixed
+// operation walks - every operation kind with trained contexts, unusual properties.
+func walkStreams() []Stream {
+	var out []Stream
+	ops := longWalk(3, 260)
+	pr := ref.Props{LC: 1, LP: 2, PB: 3}
+	lz2, plain, err := encodeOpsLZMA2(ops, pr)
+	if err != nil {
+		panic(err)
+	}
+	out = append(out, Stream{Name: "walk-lzma2", Fmt: "lzma2", Data: lz2, Plain: plain, DictSize: 1 << 16, Writer: "ref"},
+		Stream{Name: "walk-xz", Fmt: "xz", Data: ref.EncodeXZStream(ref.CheckCRC32, []ref.XZBlockSpec{{LZMA2: lz2, Plain: plain, DictCode: dictCodeFor(len(plain) + 1)}}), Plain: plain, Writer: "ref"})
+	d, plain2, err := ref.EncodeAlone(ref.Props{LC: 8, LP: 0, PB: 4}, 1<<16, longWalk(4, 260), true, true)
+	if err != nil {
+		panic(err)
+	}
+	return append(out, Stream{Name: "walk-lzma", Fmt: "lzma", Data: d, Plain: plain2, Writer: "ref"})
+}
